@@ -78,6 +78,62 @@ def guard_of(facts, f, op_suffixes):
     return {"guards": guards, "op_bbs": op_bbs}
 
 
+def guard_rules(facts, res, rule2="C16-2", rule3="C16-3"):
+    """Bounds guards of the character-data operations (shared with C13: index-size errors)."""
+    # ---- C16-2 / C16-3
+    st2 = res.rule(rule2, instances=0)
+    st3 = res.rule(rule3, instances=0)
+    shapes = {}
+    for ty in TYPES:
+        for meth, ops in OPS.items():
+            if meth == "split_text" and ty == "XmlComment":
+                continue
+            trait = {"substring_data": "CharacterData", "split_text": "TextMut"}.get(meth, "CharacterDataMut")
+            f = facts.fn("xml_dom::<%s as %s>::%s" % (ty, trait, meth))
+            g = guard_of(facts, f, ops)
+            st2["instances"] += 1
+            key = "%s::%s" % (ty, meth)
+            if "error" in g:
+                raise BrokenCheck("%s: %s: %s" % (rule2, f["path"], g["error"]))
+            good = [x for x in g["guards"] if x["true_raises"] and x["dominates_op"] and not x["true_reaches_op"]]
+            want = [x for x in good if (x["op"], x["lhs"], x["rhs"]) in (("Lt", "length", "offset"), ("Gt", "offset", "length"))]
+            res.sample({"rule": rule2, "method": key, "guards": [(x["lhs"], x["op"], x["rhs"]) for x in g["guards"]]}, limit=12)
+            ok = len(want) == 1 and len(good) == 1
+            res.oblige(1, ok)
+            shapes[key] = [(x["lhs"], x["op"], x["rhs"]) for x in good]
+            if not ok:
+                res.add(Finding(rule2, key, "%s: the bounds guard is %s, expected exactly `length() < offset` raising IndexSizeErr "
+                                "before the operation" % (f["path"], shapes[key] or "missing"), f["file"], f["line"], {"guards": g["guards"]}))
+            st3["instances"] += 1
+            dep = [x for x in g["guards"] if "count" in x["lhs"] or "count" in x["rhs"]]
+            res.oblige(1, not dep)
+            if dep:
+                res.add(Finding(rule3, key, "%s: a guard depends on `count` (%s): a count running past the end must be clipped, "
+                                "not refused" % (f["path"], [(x["lhs"], x["op"], x["rhs"]) for x in dep]), f["file"], dep[0]["line"], {}))
+    if st2["instances"] < 11:
+        raise BrokenCheck("%s: %d methods (floor 11)" % (rule2, st2["instances"]))
+    # merged text (read only): substring_data guard on chars().count()
+    f = facts.fn("xml_dom::<XmlExpandedText as CharacterData>::substring_data")
+    blocks = facts.blocks(f)
+    defs = e1.def_sites(facts, f)
+    found = False
+    for b in blocks:
+        for s in b["stmts"]:
+            if s.get("rv") == "BinaryOp" and s["op"] == "Lt":
+                pa = e1.producer(facts, f, defs, s["ops"][0])
+                l = e1.local_of(s["ops"][1])
+                src = None
+                for kind, _, x in defs.get(l, []):
+                    if kind == "stmt" and x["rv"] == "Use":
+                        src = e1.local_of(x["ops"][0])
+                if pa == "count" and src == 2:
+                    found = True
+    res.oblige(1, found)
+    st2["instances"] += 1
+    if not found:
+        res.add(Finding(rule2, "XmlExpandedText::substring_data", "guard `chars().count() < offset` not found", f["file"], f["line"], {}))
+
+
 def run(facts, tier):
     res = Result("C16")
     res.explanation = (
@@ -121,58 +177,7 @@ def run(facts, tier):
         if not ok:
             res.add(Finding("C16-1", "xml_info::%s::len" % ty, "length is not computed as chars().count(): calls %s" % names,
                             f["file"], f["line"], {}))
-    # ---- C16-2 / C16-3
-    st2 = res.rule("C16-2", instances=0)
-    st3 = res.rule("C16-3", instances=0)
-    shapes = {}
-    for ty in TYPES:
-        for meth, ops in OPS.items():
-            if meth == "split_text" and ty == "XmlComment":
-                continue
-            trait = {"substring_data": "CharacterData", "split_text": "TextMut"}.get(meth, "CharacterDataMut")
-            f = facts.fn("xml_dom::<%s as %s>::%s" % (ty, trait, meth))
-            g = guard_of(facts, f, ops)
-            st2["instances"] += 1
-            key = "%s::%s" % (ty, meth)
-            if "error" in g:
-                raise BrokenCheck("C16-2: %s: %s" % (f["path"], g["error"]))
-            good = [x for x in g["guards"] if x["true_raises"] and x["dominates_op"] and not x["true_reaches_op"]]
-            want = [x for x in good if (x["op"], x["lhs"], x["rhs"]) in (("Lt", "length", "offset"), ("Gt", "offset", "length"))]
-            res.sample({"rule": "C16-2", "method": key, "guards": [(x["lhs"], x["op"], x["rhs"]) for x in g["guards"]]}, limit=12)
-            ok = len(want) == 1 and len(good) == 1
-            res.oblige(1, ok)
-            shapes[key] = [(x["lhs"], x["op"], x["rhs"]) for x in good]
-            if not ok:
-                res.add(Finding("C16-2", key, "%s: the bounds guard is %s, expected exactly `length() < offset` raising IndexSizeErr "
-                                "before the operation" % (f["path"], shapes[key] or "missing"), f["file"], f["line"], {"guards": g["guards"]}))
-            st3["instances"] += 1
-            dep = [x for x in g["guards"] if "count" in x["lhs"] or "count" in x["rhs"]]
-            res.oblige(1, not dep)
-            if dep:
-                res.add(Finding("C16-3", key, "%s: a guard depends on `count` (%s): a count running past the end must be clipped, "
-                                "not refused" % (f["path"], [(x["lhs"], x["op"], x["rhs"]) for x in dep]), f["file"], dep[0]["line"], {}))
-    if st2["instances"] < 11:
-        raise BrokenCheck("C16-2: %d methods (floor 11)" % st2["instances"])
-    # merged text (read only): substring_data guard on chars().count()
-    f = facts.fn("xml_dom::<XmlExpandedText as CharacterData>::substring_data")
-    blocks = facts.blocks(f)
-    defs = e1.def_sites(facts, f)
-    found = False
-    for b in blocks:
-        for s in b["stmts"]:
-            if s.get("rv") == "BinaryOp" and s["op"] == "Lt":
-                pa = e1.producer(facts, f, defs, s["ops"][0])
-                l = e1.local_of(s["ops"][1])
-                src = None
-                for kind, _, x in defs.get(l, []):
-                    if kind == "stmt" and x["rv"] == "Use":
-                        src = e1.local_of(x["ops"][0])
-                if pa == "count" and src == 2:
-                    found = True
-    res.oblige(1, found)
-    st2["instances"] += 1
-    if not found:
-        res.add(Finding("C16-2", "XmlExpandedText::substring_data", "guard `chars().count() < offset` not found", f["file"], f["line"], {}))
+    guard_rules(facts, res)
     # ---- C16-4
     reasons, verdicts = reasons_e1.resolve(facts, reach)
     e1.panic_rule(facts, res, "C16-4", roots, reasons, {}, only_crates=("xml_dom", "xml_info"))
